@@ -204,6 +204,26 @@ func runC19(c *Ctx) {
 		ls, e1 := reference.LiteralInfoOf(strong)
 		lw, e2 := reference.LiteralInfoOf(weak)
 		c.Law(e1 == nil && e2 == nil && litOut(ls, nil, false) == litOut(lw, nil, false), "C19/strong-weak-info", "a typed reference and the untyped URI reference naming the same resource parse to equal information", s, fmt.Sprint(e1, e2))
+		// the same literal under another service base URL: same type and identity, and its formatted form parses back to it
+		for _, nb := range []string{"http://other.example.org/r4", "https://h:8080/a/b", ""} {
+			for _, l := range []*reference.LiteralInfo{ls, lw} {
+				if l == nil {
+					continue
+				}
+				l2, err := l.WithServiceBaseURL(nb)
+				if err != nil {
+					c.Count("rebase:error")
+					continue
+				}
+				t1, ok1 := l.Type()
+				t2, ok2 := l2.Type()
+				i1, _ := l.Identity()
+				i2, _ := l2.Identity()
+				back, berr := reference.LiteralInfoFromURI(l2.URIString())
+				good := ok1 == ok2 && t1 == t2 && (i1 == nil) == (i2 == nil) && (i1 == nil || i1.Equal(i2)) && l2.ServiceBaseURL() == nb && berr == nil && litOut(back, nil, false) == litOut(l2, nil, false)
+				c.Law(good, "C19/rebase", "a literal placed under another service base URL keeps its type and identity, and formatting it and parsing it back returns the same components", fmt.Sprintf("%s under %q", s, nb), litOut(l2, nil, false)+" reparsed "+litOut(back, berr, false))
+			}
+		}
 		c.Law(reference.Is(strong, weak) && reference.Is(weak, strong), "C19/strong-weak-is", "strong and weak references to the same resource compare as the same reference", s, "")
 		// read back through FHIRPath `reference`
 		for _, r := range []*dtpb.Reference{strong, weak} {
@@ -306,7 +326,7 @@ func runC19(c *Ctx) {
 		}
 	}
 	// canonical
-	canon := []string{"", "#frag", "|1", "http://x", "http://x|1.0", "http://x#f", "http://x|1.0#f", "http://x|a|b", "http://x#f|1", "http://x|", "http://x#", "urn:x|v_1-2.3#a.b", "x|1#" + mkID(64), "x|1#" + mkID(65)}
+	canon := []string{"http://example.com/fhir/ValueSet/my%20set|1.0.0", "http://x/%41|v#f", "http://x/100%|1", "http://x/a%sb#frag", "http://x/%d|1#f", "http://x/%v#f", "urn:x%25y|1.0", "http://x/%!s|1", "", "#frag", "|1", "http://x", "http://x|1.0", "http://x#f", "http://x|1.0#f", "http://x|a|b", "http://x#f|1", "http://x|", "http://x#", "urn:x|v_1-2.3#a.b", "x|1#" + mkID(64), "x|1#" + mkID(65)}
 	for i := 0; i < 300; i++ {
 		u := Pick(c.rng, []string{"http://example.org/sd/" + mkID(4), "urn:oid:1.2." + mkID(2), mkID(5)})
 		if c.rng.Bool() {
@@ -333,6 +353,9 @@ func runC19(c *Ctx) {
 		if err == nil && !pan && strings.Count(s, "|") <= 1 && strings.Count(s, "#") <= 1 && !strings.HasSuffix(s, "|") && !strings.HasSuffix(s, "#") && (strings.Index(s, "#") < 0 || strings.Index(s, "|") < strings.Index(s, "#")) && len(ci.Fragment) < 64 {
 			re := canonical.New(ci.Url, canonical.WithVersion(ci.Version), canonical.WithFragment(ci.Fragment)).GetValue()
 			c.Law(re == s, "C19/canonical-reassemble", "well-formed canonical URLs split into url|version#fragment and reassemble unchanged", s, re)
+			var str string
+			_, span, _ := safeErr(func() error { str = ci.String(); return nil })
+			c.Law(!span && str == s, "C19/canonical-reassemble", "well-formed canonical URLs split into url|version#fragment and reassemble unchanged", "CanonicalIdentity.String() of "+s, str)
 		}
 	}
 }
